@@ -228,6 +228,27 @@ Proof.
   destruct (collectable_Collectable g H _ _ K) as (doc & Hdoc). rewrite Hdoc. simpl. eauto.
 Qed.
 
+(* ---------- the CLI path ------------------------------------------------------------------- *)
+(* `iwe squash` (squashed tree -> builder -> export) prints a text for every tree: with the
+   heading level a usize (projector.rs:38-41, model.rs:129) no nesting overflows.  As found the
+   level was a u8 and this failed for every tree that nests sections 256 deep (F-C17-1). *)
+Lemma squash_cli_text_total : forall key t,
+  squash_cli_text key t = Ok (tree_to_markdown (Opts "") [] (key_parent key) t).
+Proof. reflexivity. Qed.
+
+(* ... hence for an existing key the whole CLI path returns, at every depth and on every
+   reference graph: the rendering of the expansion *)
+Theorem squash_cli_returns : forall g, collectable g = true ->
+  forall key root d, alookup key (gr_keys g) = Some root ->
+    exists doc, collect_key g key = Ok doc /\
+      (do t <- squash g key d; squash_cli_text key t) =
+      Ok (tree_to_markdown (Opts "") [] (key_parent key) (expand (lk_graph g) d doc)).
+Proof.
+  intros g H key root d K.
+  destruct (squash_terminates g H key root d K) as (doc & Hdoc & Hsq).
+  exists doc. split; [exact Hdoc|]. rewrite Hsq. reflexivity.
+Qed.
+
 (* ---------- the order ------------------------------------------------------------------------ *)
 
 Lemma order_tagged_map : forall {A B} (f : A -> bool) (h : A -> B) l,
